@@ -1,5 +1,7 @@
 SPECIFICATION Spec999
-CONSTANT MaxN = 999
+CONSTANTS
+  MaxN = 999
+  Slice = TRUE
 VIEW view
 INVARIANTS Correct CallBound
 CHECK_DEADLOCK FALSE
